@@ -167,6 +167,25 @@ def check_writers(sh, fa, case, d, conf, dtn, rng):
             sh.violation("bytes-of-rejected-record-emitted", "stream holds %d records, %d were accepted" % (len(trees), n_good), info)
             return
         sh.count("writer_rejections_checked")
+        # the same through the append entry points (an existing file, schema None or repeated)
+        if rng.random() < 0.3 and case.get("good_ok"):
+            base = io.BytesIO()
+            st, err = guard(fa.writer, base, copy.deepcopy(js), [good], sync_marker=b"\x41" * 16)
+            if st == "ok":
+                size0 = len(base.getvalue())
+                sch = rng.choice([None, "same"])
+                st, err = guard(fa.writer, base, None if sch is None else copy.deepcopy(js), [d], validator=True, disable_tuple_notation=dtn)
+                if st == "ok":
+                    sh.violation("validating-writer-accepts-nonconforming", "writer(fo at its end, schema=%s, validator=True) appended a datum validate rejects" % sch, dict(info, append=True))
+                    return
+                try:
+                    n_after = len(RK.records(RK.parse(base.getvalue()), node))
+                except RK.ContainerError as e:
+                    n_after = -1
+                if n_after != 1:
+                    sh.violation("bytes-of-rejected-record-emitted", "after a rejected append the file holds %d records (was 1, %d -> %d bytes)" % (n_after, size0, len(base.getvalue())), dict(info, append=True))
+                    return
+                sh.count("append_rejections_checked")
         if rng.random() < 0.3:
             so = io.StringIO()
             st, err = guard(fa.json_writer, so, case.setdefault("shared_schema", copy.deepcopy(js)), [d], validator=True, disable_tuple_notation=dtn)
